@@ -172,7 +172,36 @@ def raw(text, sort):
     return T(sort, 'raw', (text,))
 
 
+CTORS = {'VNone': (), 'VInt': ('ival',), 'VBool': ('bval',), 'VBytes': ('barr', 'boff', 'blen'), 'VStr': ('sval',), 'VRef': ('ref',), 'VOpq': ('oid',)}
+_SEL = {sel: (c, i) for c, sels in CTORS.items() for i, sel in enumerate(sels)}
+
+
 def app(name, sort, *args):
+    # datatype simplifications: selector / tester / helper applied to a constructor term
+    if len(args) == 1 and args[0].sort == VAL and args[0].op in CTORS:
+        a = args[0]
+        if name in _SEL and _SEL[name][0] == a.op:
+            return a.args[_SEL[name][1]]
+        if name.startswith('(_ is '):
+            return Bc(name == '(_ is %s)' % a.op)
+        if name == 'isint':
+            return Bc(a.op in ('VInt', 'VBool'))
+        if name == 'toint':
+            if a.op == 'VInt':
+                return a.args[0]
+            if a.op == 'VBool':
+                return ite(a.args[0], ONE, ZERO)
+        if name == 'truthy':
+            if a.op == 'VNone':
+                return FALSE
+            if a.op == 'VInt':
+                return ne(a.args[0], ZERO)
+            if a.op == 'VBool':
+                return a.args[0]
+            if a.op == 'VBytes':
+                return gt(a.args[2], ZERO)
+    if name == 'pyeq' and len(args) == 2 and args[0] == args[1]:
+        return TRUE
     return T(sort, name, args)
 
 
@@ -387,17 +416,18 @@ def ite(c, a, b):
     return T(a.sort, 'ite', (c, a, b))
 
 
-def select(arr, i):
-    # read-over-write folding for concrete indices
+def select(arr, i, _depth=0):
+    # read-over-write: concrete indices fold; symbolic ones expand to ite so that (select base i) is syntactically
+    # present (quantifier patterns over the base array then fire after instantiation)
     a = arr
-    while a.op == 'store':
+    if a.op == 'store' and arr.sort == ARR:
         base, j, v = a.args
         if j == i:
             return v
         if j.op == 'int' and i.op == 'int':
-            a = base
-            continue
-        break
+            return select(base, i, _depth)
+        if _depth < 12:
+            return ite(eq(i, j), v, select(base, i, _depth + 1))
     if a.op == 'constarr':
         return a.args[0]
     return T(INT if arr.sort == ARR else _elem_sort(arr.sort), 'select', (a, i))
